@@ -1,9 +1,33 @@
+// c06 binds spec/ingest/Spans.tla to the real span path of qryn: every case exported by TLC (abstract request body, what
+// the property statement demands per span, what the transcribed mechanism stores and reads back) is concretised into a
+// real OTLP protobuf / Zipkin JSON (array or newline-delimited) body with hostile strings and real ids / epoch times,
+// pushed through the REAL writer routes (/v1/traces, /tempo/spans, /api/v2/spans, /tempo/api/push -> the exported
+// parsers -> the real tempo insert services -> store with the real DDL), read back through the REAL reader route
+// /api/traces/{id} (JSON and protobuf), and the stored rows and the read-back spans are compared with the spec.
+//
+//	c06 run   -cases f.ndjson -out result.json -seed N [-workers K]   parent: splits the cases over child processes
+//	c06 child -cases chunk.ndjson -out chunk.out -seed N              one World; a crash of the process is an observation
 package main
 
 import (
+	"bufio"
+	"bytes"
 	"encoding/hex"
+	"encoding/json"
+	"flag"
 	"fmt"
+	"hash/fnv"
+	"math"
+	"math/rand"
 	"net/http/httptest"
+	"os"
+	"os/exec"
+	"sort"
+	"strconv"
+	"strings"
+	"sync"
+	"time"
+	"unicode/utf8"
 
 	commonpb "go.opentelemetry.io/proto/otlp/common/v1"
 	respb "go.opentelemetry.io/proto/otlp/resource/v1"
@@ -12,61 +36,1491 @@ import (
 	"verif/harness/e2e"
 )
 
-func dump(w *e2e.World) {
-	for _, q := range []string{
-		"SELECT hex(trace_id), hex(span_id), hex(parent_id), name, timestamp_ns, duration_ns, service_name, payload_type, payload FROM tempo_traces",
-		"SELECT toUInt64(date), key, val, hex(trace_id), hex(span_id), timestamp_ns, duration FROM tempo_traces_attrs_gin",
-	} {
-		r, err := w.Store.DB.Query(q)
-		fmt.Println(err)
-		if r != nil {
-			for _, row := range r.Rows {
-				fmt.Printf("  %q\n", row)
+// ---------------------------------------------------------------------------------------------------------------
+// the exported case (see MC_Spans!CaseRec)
+
+type AV struct {
+	T  string `json:"t"`
+	A  string `json:"a"`
+	E  []AV   `json:"e"`
+	KV []KV   `json:"kv"`
+}
+type KV struct {
+	K string `json:"k"`
+	V AV     `json:"v"`
+}
+type TV struct {
+	R string `json:"r"`
+	A string `json:"a"`
+}
+type Tag struct {
+	K   []string `json:"k"`
+	V   TV       `json:"v"`
+	Tid []string `json:"tid"`
+	Sid []string `json:"sid"`
+	Ts  int64    `json:"ts"`
+	Dur int64    `json:"dur"`
+}
+type ZTag struct{ K, V string }
+type ZSpan struct {
+	Tid, Sid, Parent    []string
+	Ts, Dur             int64
+	Name, Local, Remote string
+	Tags                []ZTag
+	Order               []string
+	Big                 int
+}
+type OSpan struct {
+	Tid, Sid, Parent []string
+	Start, End       int64
+	Name             string
+	Attrs            []KV
+	Big              int
+}
+type Group struct {
+	Rattrs []KV
+	Scopes [][]OSpan
+}
+type Body struct {
+	Proto, Framing, TsKind string
+	Spans                  []ZSpan
+	Groups                 []Group
+}
+type DefSpan struct {
+	Tid, Sid, Parent  []string
+	Name              string
+	Ts, Dur           int64
+	Svc               string
+	SvcKnown          bool
+	Required, Derived []Tag
+	Attrs             []KV
+}
+type Row struct {
+	Tid, Sid, Parent []string
+	Name             string
+	Ts, Dur          int64
+	Svc              string
+	Ptype            int
+	Payload          int
+}
+type RSpan struct {
+	Ok               bool
+	Tid, Sid, Parent []string
+	Name             string
+	Start, End       int64
+	Attrs            []KV
+}
+type RTrace struct {
+	Tid   []string
+	Spans []RSpan
+}
+type Mech struct {
+	Rows      []Row
+	Tags      []Tag
+	Read      []RTrace
+	Responses int
+}
+type Case struct {
+	ID    string   `json:"id"`
+	Cfg   string   `json:"cfg"`
+	Body  Body     `json:"body"`
+	N     int      `json:"n"`
+	Def   []DefSpan `json:"def"`
+	Mech  Mech     `json:"mech"`
+	Flags []string `json:"flags"`
+}
+
+// ---------------------------------------------------------------------------------------------------------------
+// concretisation: abstract atoms -> hostile concrete values, seeded per case
+
+var strPool = []string{
+	`plain`, `he said "hi"`, `back\slash\\`, "tab\there", "new\nline", `üñîçødé`, `日本語のテキスト`, `emoji 😀🚀`, `'single' quotes`,
+	`{"json":true,"a":[1,2]}`, `<b>&amp;</b>`, `null`, `%s %d %v`, ` leading and trailing `, "sep arator", `a,b;c|d`, `$(rm -rf) ` + "`x`",
+	`0`, `true`, `1e3`, `ＦＵＬＬ`, "é́", `A literal`, `трасса`, "bell\u0007ctl\u001f", `x' OR '1'='1`, "\U0001F600\U0001F9D1‍\U0001F680",
+}
+var keyPool = []string{`k`, `http.method`, `db.statement`, `k"q`, `ключ`, `with space`, `x-y_z`, `a/b`, `k:v`, `键`, `q'k`, `back\k`, `π`}
+var intPool = []int64{0, 1, -1, 42, 200, math.MaxInt64, math.MinInt64, 1700000000000, -9007199254740993, 65536}
+var dblPool = []float64{1.5, -0.25, 3, 0, 123456.789, 1e-9, 2.5e15, -1e21, 0.1, 1.0 / 3.0, math.MaxFloat64, 5e-324}
+
+type conc struct {
+	rng      *rand.Rand
+	salt     uint64
+	tblocks  map[string]string // trace id block (16 hex digits)
+	sblocks  map[string]string // span / parent id block (8 hex digits)
+	strs     map[string]string
+	baseUS   int64
+	scale    int64
+	strip0   bool // strip leading zeros of short zipkin ids
+	upperHex bool
+	escUni   bool // \uXXXX-escape every non-ASCII rune in Zipkin JSON
+	spaces   bool // insignificant white space in the Zipkin array framing
+	route    int
+}
+
+func hash64(s string) uint64 { h := fnv.New64a(); h.Write([]byte(s)); return h.Sum64() }
+
+func newConc(seed int64, id string) *conc {
+	c := &conc{salt: hash64(id) ^ uint64(seed)*0x9E3779B97F4A7C15, tblocks: map[string]string{}, sblocks: map[string]string{}, strs: map[string]string{}}
+	c.rng = rand.New(rand.NewSource(int64(c.salt)))
+	c.baseUS = 1_600_000_000_000_000 + c.rng.Int63n(200_000_000_000_000)
+	c.scale = []int64{1, 3, 1000, 999983, 60_000_000}[c.rng.Intn(5)]
+	c.strip0 = c.rng.Intn(2) == 0
+	c.upperHex = c.rng.Intn(8) == 0
+	c.escUni = c.rng.Intn(3) == 0
+	c.spaces = c.rng.Intn(3) == 0
+	c.route = c.rng.Intn(3)
+	return c
+}
+
+func (c *conc) block(m map[string]string, tok string, n int) string {
+	if tok == "0" {
+		return strings.Repeat("0", n)
+	}
+	if tok == "f" {
+		return strings.Repeat("f", n)
+	}
+	if v, ok := m[tok]; ok {
+		return v
+	}
+	r := rand.New(rand.NewSource(int64(c.salt ^ hash64(tok)*31 ^ uint64(n))))
+	const hx = "0123456789abcdef"
+	b := make([]byte, n)
+	for {
+		for i := range b {
+			b[i] = hx[r.Intn(16)]
+		}
+		if b[0] == '0' || strings.Count(string(b), "f") == n {
+			continue
+		}
+		dup := false
+		for _, o := range m {
+			if o == string(b) {
+				dup = true
 			}
 		}
+		if !dup {
+			break
+		}
 	}
+	m[tok] = string(b)
+	return string(b)
 }
 
-func sv(s string) *commonpb.AnyValue {
-	return &commonpb.AnyValue{Value: &commonpb.AnyValue_StringValue{StringValue: s}}
+// hexID: the hexadecimal text of an abstract id (as many blocks as the id has)
+func (c *conc) hexID(id []string, trace bool) string {
+	var sb strings.Builder
+	for _, t := range id {
+		if trace {
+			sb.WriteString(c.block(c.tblocks, t, 16))
+		} else {
+			sb.WriteString(c.block(c.sblocks, t, 8))
+		}
+	}
+	return sb.String()
 }
 
-func main() {
-	w, err := e2e.New(e2e.Options{})
+// bytesID: the binary id of a full-width abstract id
+func (c *conc) bytesID(id []string, trace bool) []byte {
+	if len(id) == 0 {
+		return nil
+	}
+	b, err := hex.DecodeString(c.hexID(id, trace))
 	if err != nil {
 		panic(err)
 	}
-	defer w.Close()
-	body := `[{"traceId":"00000000000000ab","id":"1f","parentId":"2","name":"n\"1","timestamp":"1700000000000001","duration":12,"localEndpoint":{"serviceName":"loc"},"remoteEndpoint":{"serviceName":"rem"},"tags":{"a":"b","c":"dé"}}]`
-	fmt.Println(w.Push("POST", "/tempo/spans", "application/json", []byte(body), nil))
-	w.Settle()
-	nd := `{"traceId":"000000000000000000000000000000cd","id":"000000000000001e","parentId":"0000000000000003","name":"n2","timestamp":1700000000000002,"duration":13,"localEndpoint":{"serviceName":"loc2"},"tags":{"x":"y"}}
-{"traceId":"000000000000000000000000000000ce","id":"000000000000002e","name":"n3","timestamp":1700000000000003,"duration":14,"tags":{"z":"w"}}
-`
-	fmt.Println(w.Push("POST", "/api/v2/spans", "ndjson", []byte(nd), nil))
-	w.Settle()
-	tid, _ := hex.DecodeString("0102030405060708090a0b0c0d0e0f10")
-	sid, _ := hex.DecodeString("1112131415161718")
-	td := &tracepb.TracesData{ResourceSpans: []*tracepb.ResourceSpans{{
-		Resource: &respb.Resource{Attributes: []*commonpb.KeyValue{{Key: "service.name", Value: sv("svcA")}, {Key: "host", Value: sv("h1")}}},
-		ScopeSpans: []*tracepb.ScopeSpans{{Spans: []*tracepb.Span{{TraceId: tid, SpanId: sid, Name: "op", StartTimeUnixNano: 1700000000000000005, EndTimeUnixNano: 1700000000000000105,
-			Attributes: []*commonpb.KeyValue{{Key: "peer.service", Value: sv("peerX")}, {Key: "d", Value: &commonpb.AnyValue{Value: &commonpb.AnyValue_DoubleValue{DoubleValue: 1.5}}},
-				{Key: "l", Value: &commonpb.AnyValue{Value: &commonpb.AnyValue_ArrayValue{ArrayValue: &commonpb.ArrayValue{Values: []*commonpb.AnyValue{sv("e0"), sv("e1")}}}}}}}}}},
-	}}}
-	b, _ := proto.Marshal(td)
-	fmt.Println(w.Push("POST", "/v1/traces", "application/x-protobuf", b, nil))
-	w.Settle()
-	dump(w)
-	fmt.Println(w.StoreErr)
-	for _, t := range []string{"000000000000000000000000000000ab", "000000000000000000000000000000cd", "000000000000000000000000000000ce", "0102030405060708090a0b0c0d0e0f10"} {
-		fmt.Println(w.Get("/api/traces/" + t))
-		fmt.Println(w.Get("/api/traces/" + t + "/json"))
+	return b
+}
+
+// zipkinHex: the id as a Zipkin client may write it: short ids possibly without their leading zeros, possibly upper case
+func (c *conc) zipkinHex(id []string, trace bool) string {
+	h := c.hexID(id, trace)
+	if len(id) < 2 && c.strip0 {
+		h = strings.TrimLeft(h, "0")
+		if h == "" {
+			h = "0"
+		}
+	}
+	if c.upperHex {
+		h = strings.ToUpper(h)
+	}
+	return h
+}
+
+func (c *conc) str(a string) string {
+	if !strings.HasPrefix(a, "@") {
+		return a
+	}
+	if v, ok := c.strs[a]; ok {
+		return v
+	}
+	var v string
+	r := rand.New(rand.NewSource(int64(c.salt ^ hash64(a))))
+	switch {
+	case strings.HasPrefix(a, "@B1"):
+		v = longString(r, 70_000)
+	case strings.HasPrefix(a, "@B2"):
+		v = longString(r, 300_000)
+	case strings.HasPrefix(a, "@k"), strings.HasPrefix(a, "@x"), strings.HasPrefix(a, "@y"), strings.HasPrefix(a, "@h"), strings.HasPrefix(a, "@r"):
+		v = keyPool[r.Intn(len(keyPool))] + "~" + a[1:]
+	default:
+		v = strPool[r.Intn(len(strPool))] + "·" + a[1:]
+	}
+	c.strs[a] = v
+	return v
+}
+
+func longString(r *rand.Rand, n int) string {
+	var sb strings.Builder
+	parts := []string{"lorem ", "ipsum\"", "dolor\\", "sit é", "amet 😀", "0123456789"}
+	for sb.Len() < n {
+		sb.WriteString(parts[r.Intn(len(parts))])
+	}
+	return sb.String()
+}
+
+func (c *conc) i64(a string) int64 {
+	r := rand.New(rand.NewSource(int64(c.salt ^ hash64(a))))
+	return intPool[r.Intn(len(intPool))]
+}
+func (c *conc) f64(a string) float64 {
+	r := rand.New(rand.NewSource(int64(c.salt ^ hash64(a))))
+	return dblPool[r.Intn(len(dblPool))]
+}
+func (c *conc) boolean(a string) bool {
+	r := rand.New(rand.NewSource(int64(c.salt ^ hash64(a))))
+	return r.Intn(2) == 0
+}
+
+// instants / durations: abstract ns -> concrete ns (abstract microsecond u of Zipkin = abstract ns 1000u)
+func (c *conc) instant(n int64) int64  { return c.baseUS*1000 + n*c.scale }
+func (c *conc) duration(n int64) int64 { return n * c.scale }
+func (c *conc) micros(u int64) int64   { return c.baseUS + u*c.scale }
+func (c *conc) microsDur(u int64) int64 { return u * c.scale }
+
+func (c *conc) path(p []string) string {
+	parts := make([]string, len(p))
+	for i, s := range p {
+		parts[i] = c.str(s)
+	}
+	return strings.Join(parts, ".")
+}
+
+func (c *conc) anyValue(v AV) *commonpb.AnyValue {
+	switch v.T {
+	case "str":
+		return &commonpb.AnyValue{Value: &commonpb.AnyValue_StringValue{StringValue: c.str(v.A)}}
+	case "int":
+		return &commonpb.AnyValue{Value: &commonpb.AnyValue_IntValue{IntValue: c.i64(v.A)}}
+	case "double":
+		return &commonpb.AnyValue{Value: &commonpb.AnyValue_DoubleValue{DoubleValue: c.f64(v.A)}}
+	case "bool":
+		return &commonpb.AnyValue{Value: &commonpb.AnyValue_BoolValue{BoolValue: c.boolean(v.A)}}
+	case "list":
+		l := &commonpb.ArrayValue{}
+		for _, e := range v.E {
+			l.Values = append(l.Values, c.anyValue(e))
+		}
+		return &commonpb.AnyValue{Value: &commonpb.AnyValue_ArrayValue{ArrayValue: l}}
+	case "map":
+		m := &commonpb.KeyValueList{}
+		for _, kv := range v.KV {
+			m.Values = append(m.Values, &commonpb.KeyValue{Key: c.str(kv.K), Value: c.anyValue(kv.V)})
+		}
+		return &commonpb.AnyValue{Value: &commonpb.AnyValue_KvlistValue{KvlistValue: m}}
+	}
+	panic("unknown attribute kind " + v.T)
+}
+
+func (c *conc) keyValues(kvs []KV) []*commonpb.KeyValue {
+	var out []*commonpb.KeyValue
+	for _, kv := range kvs {
+		out = append(out, &commonpb.KeyValue{Key: c.str(kv.K), Value: c.anyValue(kv.V)})
+	}
+	return out
+}
+
+// the rendering of a tag-index value the spec names by r
+func (c *conc) tagValue(v TV) (string, bool) {
+	switch v.R {
+	case "str":
+		return c.str(v.A), true
+	case "bool":
+		return strconv.FormatBool(c.boolean(v.A)), true
+	case "int":
+		return strconv.FormatInt(c.i64(v.A), 10), true
+	case "f6":
+		return fmt.Sprintf("%f", c.f64(v.A)), true
+	case "f": // any faithful decimal rendering: compared numerically
+		return "", false
+	}
+	panic("unknown rendering " + v.R)
+}
+
+// ---------------------------------------------------------------------------------------------------------------
+// bodies
+
+func (c *conc) jsonStr(s string) string {
+	var buf bytes.Buffer
+	enc := json.NewEncoder(&buf)
+	enc.SetEscapeHTML(false)
+	if err := enc.Encode(s); err != nil {
+		panic(err)
+	}
+	out := strings.TrimRight(buf.String(), "\n")
+	if !c.escUni {
+		return out
+	}
+	var sb strings.Builder
+	for _, r := range out {
+		if r < 0x80 {
+			sb.WriteRune(r)
+		} else if r >= 0x10000 {
+			r -= 0x10000
+			fmt.Fprintf(&sb, `\u%04x\u%04x`, 0xd800+(r>>10), 0xdc00+(r&0x3ff))
+		} else {
+			fmt.Fprintf(&sb, `\u%04x`, r)
+		}
+	}
+	return sb.String()
+}
+
+func (c *conc) zipkinSpanJSON(s ZSpan, tsKind string) string {
+	num := func(n int64) string {
+		if tsKind == "string" {
+			return `"` + strconv.FormatInt(n, 10) + `"`
+		}
+		return strconv.FormatInt(n, 10)
+	}
+	ep := func(e string) string {
+		if e == "~" {
+			return `{}`
+		}
+		return `{"serviceName":` + c.jsonStr(c.str(e)) + `}`
+	}
+	var parts []string
+	for _, k := range s.Order {
+		var v string
+		switch k {
+		case "traceId":
+			v = `"` + c.zipkinHex(s.Tid, true) + `"`
+		case "id":
+			v = `"` + c.zipkinHex(s.Sid, false) + `"`
+		case "parentId":
+			v = `"` + c.zipkinHex(s.Parent, false) + `"`
+		case "timestamp":
+			v = num(c.micros(s.Ts))
+		case "duration":
+			v = num(c.microsDur(s.Dur))
+		case "name":
+			v = c.jsonStr(c.str(s.Name))
+		case "localEndpoint":
+			v = ep(s.Local)
+		case "remoteEndpoint":
+			v = ep(s.Remote)
+		case "tags":
+			var ts []string
+			for _, t := range s.Tags {
+				ts = append(ts, c.jsonStr(c.str(t.K))+":"+c.jsonStr(c.str(t.V)))
+			}
+			v = "{" + strings.Join(ts, ",") + "}"
+		default:
+			panic("unknown zipkin key " + k)
+		}
+		parts = append(parts, `"`+k+`":`+v)
+	}
+	return "{" + strings.Join(parts, ",") + "}"
+}
+
+type request struct {
+	Path, ContentType string
+	Body              []byte
+	SpanJSON          []string // zipkin: the raw text of each span object
+}
+
+var zipkinRoutes = []string{"/tempo/spans", "/api/v2/spans", "/tempo/api/push"}
+
+func (c *conc) build(b Body) request {
+	if b.Proto == "zipkin" {
+		var spans []string
+		for _, s := range b.Spans {
+			spans = append(spans, c.zipkinSpanJSON(s, b.TsKind))
+		}
+		r := request{Path: zipkinRoutes[c.route], SpanJSON: spans}
+		if b.Framing == "array" {
+			r.ContentType = "application/json"
+			if c.spaces {
+				r.Body = []byte(" [ " + strings.Join(spans, " ,\n ") + " ]\n")
+			} else {
+				r.Body = []byte("[" + strings.Join(spans, ",") + "]")
+			}
+		} else {
+			r.ContentType = "ndjson" // PusherCtx.DoParse: strings.HasPrefix(contentType, "ndjson")
+			r.Body = []byte(strings.Join(spans, "\n") + "\n")
+		}
+		return r
+	}
+	td := &tracepb.TracesData{}
+	for _, g := range b.Groups {
+		rs := &tracepb.ResourceSpans{Resource: &respb.Resource{Attributes: c.keyValues(g.Rattrs)}}
+		for _, sc := range g.Scopes {
+			ss := &tracepb.ScopeSpans{Scope: &commonpb.InstrumentationScope{Name: "lib", Version: "1"}}
+			for _, s := range sc {
+				ss.Spans = append(ss.Spans, &tracepb.Span{
+					TraceId: c.bytesID(s.Tid, true), SpanId: c.bytesID(s.Sid, false), ParentSpanId: c.bytesID(s.Parent, false),
+					Name: c.str(s.Name), Kind: tracepb.Span_SPAN_KIND_SERVER,
+					StartTimeUnixNano: uint64(c.instant(s.Start)), EndTimeUnixNano: uint64(c.instant(s.End)),
+					Attributes: c.keyValues(s.Attrs),
+				})
+			}
+			rs.ScopeSpans = append(rs.ScopeSpans, ss)
+		}
+		td.ResourceSpans = append(td.ResourceSpans, rs)
+	}
+	bin, err := proto.Marshal(td)
+	if err != nil {
+		panic(err)
+	}
+	return request{Path: "/v1/traces", ContentType: "application/x-protobuf", Body: bin}
+}
+
+// ---------------------------------------------------------------------------------------------------------------
+// observations
+
+type obsRow struct {
+	Tid, Sid, Parent string // raw bytes
+	Name             string
+	Ts, Dur          int64
+	Svc              string
+	Ptype            int64
+	Payload          string
+}
+type obsTag struct {
+	Key, Val string
+	Tid, Sid string
+	Ts, Dur  int64
+}
+type obsSpan struct {
+	Tid, Sid, Parent string
+	Name             string
+	Start, End       uint64
+	Attrs            map[string]*commonpb.AnyValue
+	DupKeys          []string
+}
+type jsonSpan struct {
+	TraceID      string      `json:"traceID"`
+	TraceId      string      `json:"traceId"`
+	SpanID       string      `json:"spanID"`
+	SpanId       string      `json:"spanId"`
+	Name         string      `json:"name"`
+	Start        json.Number `json:"startTimeUnixNano"`
+	End          json.Number `json:"endTimeUnixNano"`
+	ParentSpanId string      `json:"parentSpanId"`
+	ServiceName  string      `json:"serviceName"`
+	Attributes   []struct {
+		Key   string `json:"key"`
+		Value struct {
+			StringValue string `json:"stringValue"`
+		} `json:"value"`
+	} `json:"attributes"`
+}
+type observation struct {
+	Status   int
+	Resp     string
+	Rows     []obsRow
+	Tags     []obsTag
+	ReadPB   map[string][]obsSpan  // by hex trace id
+	ReadJSON map[string][]jsonSpan // by hex trace id
+	ReadErr  []string
+	StoreErr []string
+}
+
+func toI64(v any) int64 {
+	switch x := v.(type) {
+	case int64:
+		return x
+	case int:
+		return int64(x)
+	case int8:
+		return int64(x)
+	case int16:
+		return int64(x)
+	case int32:
+		return int64(x)
+	case uint8:
+		return int64(x)
+	case uint16:
+		return int64(x)
+	case uint32:
+		return int64(x)
+	case uint64:
+		return int64(x)
+	case float64:
+		return int64(x)
+	}
+	panic(fmt.Sprintf("not an integer: %T %v", v, v))
+}
+
+func observe(w *e2e.World, rq request, tids []string) (*observation, error) {
+	o := &observation{ReadPB: map[string][]obsSpan{}, ReadJSON: map[string][]jsonSpan{}}
+	o.Status, o.Resp = w.Push("POST", rq.Path, rq.ContentType, rq.Body, nil)
+	r, err := w.Store.DB.Query("SELECT trace_id, span_id, parent_id, name, timestamp_ns, duration_ns, service_name, payload_type, payload FROM tempo_traces")
+	if err != nil {
+		return nil, fmt.Errorf("store query tempo_traces: %v", err)
+	}
+	for _, x := range r.Rows {
+		o.Rows = append(o.Rows, obsRow{Tid: x[0].(string), Sid: x[1].(string), Parent: x[2].(string), Name: x[3].(string), Ts: toI64(x[4]), Dur: toI64(x[5]),
+			Svc: x[6].(string), Ptype: toI64(x[7]), Payload: x[8].(string)})
+	}
+	r, err = w.Store.DB.Query("SELECT key, val, trace_id, span_id, timestamp_ns, duration FROM tempo_traces_attrs_gin")
+	if err != nil {
+		return nil, fmt.Errorf("store query tempo_traces_attrs_gin: %v", err)
+	}
+	for _, x := range r.Rows {
+		o.Tags = append(o.Tags, obsTag{Key: x[0].(string), Val: x[1].(string), Tid: x[2].(string), Sid: x[3].(string), Ts: toI64(x[4]), Dur: toI64(x[5])})
+	}
+	for _, t := range tids {
+		code, body := w.Get("/api/traces/" + t + "/json")
+		if code != 200 {
+			o.ReadErr = append(o.ReadErr, fmt.Sprintf("GET /api/traces/%s/json: %d %s", t, code, clip(body)))
+		} else {
+			var doc struct {
+				ResourceSpans []struct {
+					ILS []struct {
+						Spans []jsonSpan `json:"spans"`
+					} `json:"instrumentationLibrarySpans"`
+				} `json:"resourceSpans"`
+			}
+			dec := json.NewDecoder(strings.NewReader(body))
+			dec.UseNumber()
+			if err := dec.Decode(&doc); err != nil {
+				o.ReadErr = append(o.ReadErr, fmt.Sprintf("GET /api/traces/%s/json: not JSON: %v: %s", t, err, clip(body)))
+			} else {
+				o.ReadJSON[t] = []jsonSpan{}
+				for _, rs := range doc.ResourceSpans {
+					for _, ils := range rs.ILS {
+						o.ReadJSON[t] = append(o.ReadJSON[t], ils.Spans...)
+					}
+				}
+			}
+		}
 		req := httptest.NewRequest("GET", "/api/traces/"+t, nil)
 		req.Header.Set("Accept", "application/protobuf")
-		c, s := w.Do(req)
-		var out tracepb.TracesData
-		err := proto.Unmarshal([]byte(s), &out)
-		fmt.Println(c, err, out.String())
+		code, body = w.Do(req)
+		if code != 200 {
+			o.ReadErr = append(o.ReadErr, fmt.Sprintf("GET /api/traces/%s (protobuf): %d %s", t, code, clip(body)))
+			continue
+		}
+		var td tracepb.TracesData
+		if err := proto.Unmarshal([]byte(body), &td); err != nil {
+			o.ReadErr = append(o.ReadErr, fmt.Sprintf("GET /api/traces/%s (protobuf): %v", t, err))
+			continue
+		}
+		o.ReadPB[t] = []obsSpan{}
+		for _, rs := range td.ResourceSpans {
+			for _, ss := range rs.ScopeSpans {
+				for _, s := range ss.Spans {
+					os_ := obsSpan{Tid: string(s.TraceId), Sid: string(s.SpanId), Parent: string(s.ParentSpanId), Name: s.Name, Start: s.StartTimeUnixNano,
+						End: s.EndTimeUnixNano, Attrs: map[string]*commonpb.AnyValue{}}
+					for _, kv := range s.Attributes {
+						if _, dup := os_.Attrs[kv.Key]; dup {
+							os_.DupKeys = append(os_.DupKeys, kv.Key)
+						}
+						os_.Attrs[kv.Key] = kv.Value
+					}
+					o.ReadPB[t] = append(o.ReadPB[t], os_)
+				}
+			}
+		}
 	}
-	fmt.Println(w.Bridge.Unsupported)
+	o.StoreErr = append(o.StoreErr, w.StoreErr...)
+	if w.Bridge != nil {
+		for _, u := range w.Bridge.Unsupported {
+			o.StoreErr = append(o.StoreErr, "chsql unsupported: "+fmt.Sprint(u))
+		}
+	}
+	return o, nil
+}
+
+// ---------------------------------------------------------------------------------------------------------------
+// comparison
+
+type mismatch struct {
+	Kind   string `json:"kind"` // structural, stable across seeds
+	Span   int    `json:"span"` // 1-based index of the span in the body, 0 = the whole body
+	Detail string `json:"detail"`
+}
+
+func clip(s string) string {
+	if len(s) <= 400 {
+		return s
+	}
+	cut := 200
+	for cut > 0 && !utf8.RuneStart(s[cut]) {
+		cut--
+	}
+	end := len(s) - 100
+	for end < len(s) && !utf8.RuneStart(s[end]) {
+		end++
+	}
+	return s[:cut] + fmt.Sprintf("...[%d bytes]...", len(s)) + s[end:]
+}
+func hx(s string) string { return hex.EncodeToString([]byte(s)) }
+
+func keyClass(p []string) string {
+	for _, s := range p {
+		if strings.HasPrefix(s, "@") {
+			return "attribute"
+		}
+	}
+	return strings.Join(p, ".")
+}
+
+func floatClose(obs string, want float64) bool {
+	x, err := strconv.ParseFloat(obs, 64)
+	if err != nil {
+		return false
+	}
+	if x == want {
+		return true
+	}
+	return math.Abs(x-want) <= 5e-7+math.Abs(want)*1e-12
+}
+
+func (c *conc) tagMatches(t obsTag, q Tag) bool {
+	if t.Key != c.path(q.K) {
+		return false
+	}
+	if want, exact := c.tagValue(q.V); exact {
+		return t.Val == want
+	}
+	return floatClose(t.Val, c.f64(q.V.A))
+}
+
+func pad(id []string) []string { // DecodeHex of the spec, for ids that are already decoded this is the identity
+	for len(id) < 2 {
+		id = append([]string{"0"}, id...)
+	}
+	return id[:2]
+}
+
+// compareDef: the clauses of the property statement, on the observed rows and read-back
+func (c *conc) compareDef(cs *Case, rq request, o *observation) []mismatch {
+	var mm []mismatch
+	add := func(kind string, span int, f string, a ...any) { mm = append(mm, mismatch{kind, span, clip(fmt.Sprintf(f, a...))}) }
+	if len(o.Rows) != cs.N {
+		add("rows-count", 0, "%d spans accepted (HTTP %d), %d rows in tempo_traces", cs.N, o.Status, len(o.Rows))
+	}
+	type ids struct{ tid, sid string }
+	owner := map[ids]int{}
+	for n, d := range cs.Def {
+		owner[ids{string(c.bytesID(d.Tid, true)), string(c.bytesID(d.Sid, false))}] = n + 1
+	}
+	for _, t := range o.Tags {
+		if _, ok := owner[ids{t.Tid, t.Sid}]; !ok {
+			add("tag-row:ids", 0, "tag row %q=%q carries trace id %s span id %s which belong to no span of the body", t.Key, t.Val, hx(t.Tid), hx(t.Sid))
+		}
+	}
+	for n, d := range cs.Def {
+		sp := n + 1
+		tid, sid, parent := string(c.bytesID(d.Tid, true)), string(c.bytesID(d.Sid, false)), string(c.bytesID(d.Parent, false))
+		ts, dur := c.instant(d.Ts), c.duration(d.Dur)
+		var rows []obsRow
+		for _, r := range o.Rows {
+			if r.Tid == tid && r.Sid == sid {
+				rows = append(rows, r)
+			}
+		}
+		if len(rows) != 1 {
+			add("trace-row:count", sp, "%d rows in tempo_traces for trace id %s span id %s, expected exactly 1", len(rows), hx(tid), hx(sid))
+		}
+		for _, r := range rows {
+			if r.Parent != parent {
+				add("trace-row:parent_id", sp, "parent_id %s, the span's parent is %s", hx(r.Parent), hx(parent))
+			}
+			if r.Name != c.str(d.Name) {
+				add("trace-row:name", sp, "name %q, the span's name is %q", r.Name, c.str(d.Name))
+			}
+			if r.Ts != ts {
+				add("trace-row:timestamp_ns", sp, "timestamp_ns %d, the span starts at %d", r.Ts, ts)
+			}
+			if r.Dur != dur {
+				add("trace-row:duration_ns", sp, "duration_ns %d, the span lasts %d", r.Dur, dur)
+			}
+			if d.SvcKnown && r.Svc != c.str(d.Svc) {
+				add("trace-row:service_name", sp, "service_name %q, the span's service is %q", r.Svc, c.str(d.Svc))
+			}
+		}
+		var tags []obsTag
+		for _, t := range o.Tags {
+			if t.Tid == tid && t.Sid == sid {
+				tags = append(tags, t)
+			}
+		}
+		for _, t := range tags {
+			if t.Ts != ts || t.Dur != dur {
+				add("tag-row:times", sp, "tag row %q carries timestamp_ns %d duration %d, the span has %d / %d", t.Key, t.Ts, t.Dur, ts, dur)
+			}
+		}
+		reqKeys := map[string]bool{}
+		for _, q := range d.Required {
+			reqKeys[c.path(q.K)] = true
+			cnt := 0
+			for _, t := range tags {
+				if c.tagMatches(t, q) {
+					cnt++
+				}
+			}
+			want, _ := c.tagValue(q.V)
+			if q.V.R == "f" {
+				want = fmt.Sprint(c.f64(q.V.A))
+			}
+			kind := attrKindOf(d.Attrs, q.K)
+			if cnt == 0 {
+				add("tag-missing:"+kind, sp, "no tag row %q = %q for the span (trace id %s span id %s)", c.path(q.K), want, hx(tid), hx(sid))
+			} else if cnt > 1 {
+				add("tag-duplicate:"+kind, sp, "%d tag rows %q = %q for the span", cnt, c.path(q.K), want)
+			}
+		}
+	foreign:
+		for _, t := range tags {
+			for _, q := range append(append([]Tag{}, d.Required...), d.Derived...) {
+				if c.tagMatches(t, q) {
+					continue foreign
+				}
+			}
+			if cs.Body.Proto == "otlp" && (t.Key == "service.name" || t.Key == "remoteService.name") && !reqKeys[t.Key] {
+				continue
+			}
+			cls := "attribute"
+			for _, lit := range []string{"name", "service.name", "remoteService.name", "local_endpoint_service_name", "remote_endpoint_service_name"} {
+				if t.Key == lit {
+					cls = lit
+				}
+			}
+			add("tag-foreign:"+cls, sp, "tag row %q = %q with the span's ids is neither an attribute of the span nor derived from it", t.Key, t.Val)
+		}
+		// read-back, protobuf
+		ht := hx(tid)
+		got, ok := o.ReadPB[ht]
+		var found []obsSpan
+		for _, s := range got {
+			if s.Sid == sid {
+				found = append(found, s)
+			}
+		}
+		switch {
+		case !ok:
+			add("read-error", sp, "reading trace %s failed: %v", ht, o.ReadErr)
+		case len(found) == 0:
+			add("read-missing", sp, "GET /api/traces/%s (protobuf) returns %d spans, none with span id %s", ht, len(got), hx(sid))
+		case len(found) > 1:
+			add("read-duplicate", sp, "GET /api/traces/%s returns %d spans with span id %s", ht, len(found), hx(sid))
+		default:
+			s := found[0]
+			if s.Tid != tid {
+				add("read:trace_id", sp, "trace id %s, pushed %s", hx(s.Tid), ht)
+			}
+			if s.Parent != parent {
+				add("read:parent", sp, "parent span id %q read back, pushed %q", hx(s.Parent), hx(parent))
+			}
+			if s.Name != c.str(d.Name) {
+				add("read:name", sp, "name %q read back, pushed %q", s.Name, c.str(d.Name))
+			}
+			if int64(s.Start) != ts || int64(s.End) != ts+dur {
+				add("read:times", sp, "start/end %d/%d read back, pushed %d/%d", s.Start, s.End, ts, ts+dur)
+			}
+			for _, kv := range d.Attrs {
+				k := c.str(kv.K)
+				want := c.anyValue(kv.V)
+				v, ok := s.Attrs[k]
+				cls := "attribute"
+				if !strings.HasPrefix(kv.K, "@") {
+					cls = kv.K
+				}
+				if !ok {
+					add("read:attr-missing:"+cls, sp, "attribute %q (%s) is not in the span read back", k, kv.V.T)
+				} else if !proto.Equal(v, want) {
+					add("read:attr-value:"+cls, sp, "attribute %q read back as %s, pushed %s", k, v.String(), want.String())
+				}
+			}
+		}
+		// read-back, JSON
+		gj, ok := o.ReadJSON[ht]
+		var fj []jsonSpan
+		for _, s := range gj {
+			if s.SpanId == hx(sid) {
+				fj = append(fj, s)
+			}
+		}
+		switch {
+		case !ok:
+			add("readjson-error", sp, "reading trace %s as JSON failed: %v", ht, o.ReadErr)
+		case len(fj) == 0:
+			add("readjson-missing", sp, "GET /api/traces/%s/json returns %d spans, none with span id %s", ht, len(gj), hx(sid))
+		case len(fj) > 1:
+			add("readjson-duplicate", sp, "GET /api/traces/%s/json returns %d spans with span id %s", ht, len(fj), hx(sid))
+		default:
+			s := fj[0]
+			if s.TraceId != ht || s.TraceID != ht || s.SpanID != hx(sid) {
+				add("readjson:ids", sp, "ids %s/%s/%s read back, pushed %s/%s", s.TraceId, s.TraceID, s.SpanID, ht, hx(sid))
+			}
+			zeroParent := parent != "" && strings.Trim(hx(parent), "0") == ""
+			if s.ParentSpanId != hx(parent) && !(zeroParent && s.ParentSpanId == "") {
+				add("readjson:parent", sp, "parentSpanId %q read back, pushed %q", s.ParentSpanId, hx(parent))
+			}
+			if s.Name != c.str(d.Name) {
+				add("readjson:name", sp, "name %q read back, pushed %q", s.Name, c.str(d.Name))
+			}
+			if s.Start.String() != strconv.FormatInt(ts, 10) || s.End.String() != strconv.FormatInt(ts+dur, 10) {
+				add("readjson:times", sp, "start/end %s/%s read back, pushed %d/%d", s.Start, s.End, ts, ts+dur)
+			}
+			for _, kv := range d.Attrs {
+				k := c.str(kv.K)
+				cls := "attribute"
+				if !strings.HasPrefix(kv.K, "@") {
+					cls = kv.K
+				}
+				var vals []string
+				for _, a := range s.Attributes {
+					if a.Key == k {
+						vals = append(vals, a.Value.StringValue)
+					}
+				}
+				if len(vals) == 0 {
+					add("readjson:attr-missing:"+cls, sp, "attribute %q (%s) is not in the JSON span", k, kv.V.T)
+					continue
+				}
+				okv := true
+				switch kv.V.T {
+				case "str":
+					okv = vals[0] == c.str(kv.V.A)
+				case "int":
+					okv = vals[0] == strconv.FormatInt(c.i64(kv.V.A), 10)
+				case "bool":
+					okv = vals[0] == strconv.FormatBool(c.boolean(kv.V.A))
+				case "double":
+					okv = floatClose(vals[0], c.f64(kv.V.A))
+				}
+				if !okv {
+					add("readjson:attr-value:"+cls, sp, "attribute %q read back as %q, pushed %s", k, vals[0], c.anyValue(kv.V).String())
+				}
+			}
+		}
+	}
+	return mm
+}
+
+// attrKindOf: the kind of the top-level attribute a flattened path belongs to, and of the leaf's container
+func attrKindOf(attrs []KV, path []string) string {
+	for _, kv := range attrs {
+		if len(path) > 0 && kv.K == path[0] {
+			v := kv.V
+			top := v.T
+			if len(path) == 1 {
+				return top
+			}
+			return top + "-element"
+		}
+	}
+	return "?"
+}
+
+// compareExact: the observation against what the transcribed mechanism predicts (conformance of the spec's transcription)
+func (c *conc) compareExact(cs *Case, rq request, o *observation) []string {
+	var diffs []string
+	add := func(f string, a ...any) { diffs = append(diffs, clip(fmt.Sprintf(f, a...))) }
+	var want, got []string
+	for _, r := range cs.Mech.Rows {
+		pl := "payload:empty"
+		if cs.Body.Proto == "zipkin" && r.Payload > 0 {
+			pl = "payload:" + rq.SpanJSON[r.Payload-1]
+		} else if cs.Body.Proto == "otlp" {
+			pl = "payload:protobuf"
+		}
+		want = append(want, fmt.Sprintf("tid=%s sid=%s parent=%s name=%q ts=%d dur=%d svc=%q ptype=%d %s", hx(string(c.bytesID(pad(r.Tid), true))),
+			hx(string(c.bytesID(pad(r.Sid), false))), hx(string(c.bytesID(r.Parent, false))), c.str(r.Name), c.instantOrZero(r.Ts, r.Tid), c.duration(r.Dur), c.str(r.Svc), r.Ptype, pl))
+	}
+	for _, r := range o.Rows {
+		pl := "payload:" + r.Payload
+		if r.Payload == "" {
+			pl = "payload:empty"
+		} else if cs.Body.Proto == "otlp" {
+			pl = "payload:protobuf"
+		}
+		got = append(got, fmt.Sprintf("tid=%s sid=%s parent=%s name=%q ts=%d dur=%d svc=%q ptype=%d %s", hx(r.Tid), hx(r.Sid), hx(r.Parent), r.Name, r.Ts, r.Dur, r.Svc, r.Ptype, pl))
+	}
+	if d := multisetDiff(want, got); d != "" {
+		add("tempo_traces rows differ from the mechanism: %s", d)
+	}
+	want, got = nil, nil
+	for _, t := range cs.Mech.Tags {
+		v, _ := c.tagValue(t.V)
+		want = append(want, fmt.Sprintf("%q=%q tid=%s sid=%s ts=%d dur=%d", c.path(t.K), v, hx(string(c.bytesID(pad(t.Tid), true))), hx(string(c.bytesID(pad(t.Sid), false))),
+			c.instantOrZero(t.Ts, t.Tid), c.duration(t.Dur)))
+	}
+	for _, t := range o.Tags {
+		got = append(got, fmt.Sprintf("%q=%q tid=%s sid=%s ts=%d dur=%d", t.Key, t.Val, hx(t.Tid), hx(t.Sid), t.Ts, t.Dur))
+	}
+	if d := multisetDiff(want, got); d != "" {
+		add("tempo_traces_attrs_gin rows differ from the mechanism: %s", d)
+	}
+	for _, tr := range cs.Mech.Read {
+		ht := hx(string(c.bytesID(pad(tr.Tid), true)))
+		gotSpans, ok := o.ReadPB[ht]
+		if !ok {
+			add("trace %s could not be read: %v", ht, o.ReadErr)
+			continue
+		}
+		want, got = nil, nil
+		for _, s := range tr.Spans {
+			var as []string
+			for _, kv := range s.Attrs {
+				as = append(as, fmt.Sprintf("%q:%s", c.str(kv.K), c.anyValue(kv.V).String()))
+			}
+			sort.Strings(as)
+			want = append(want, fmt.Sprintf("sid=%s parent=%s name=%q start=%d end=%d attrs=%v", hx(string(c.bytesID(pad(s.Sid), false))), hx(string(c.bytesID(s.Parent, false))),
+				c.str(s.Name), c.instant(s.Start), c.instant(s.End), as))
+		}
+		for _, s := range gotSpans {
+			var as []string
+			for k, v := range s.Attrs {
+				as = append(as, fmt.Sprintf("%q:%s", k, v.String()))
+			}
+			sort.Strings(as)
+			got = append(got, fmt.Sprintf("sid=%s parent=%s name=%q start=%d end=%d attrs=%v", hx(s.Sid), hx(s.Parent), s.Name, s.Start, s.End, as))
+		}
+		if d := multisetDiff(want, got); d != "" {
+			add("read-back of trace %s differs from the mechanism: %s", ht, d)
+		}
+	}
+	return diffs
+}
+
+// a row emitted by a decoder that never saw "timestamp" keeps the abstract instant 0 = concrete 0; not generated here
+func (c *conc) instantOrZero(n int64, _ []string) int64 { return c.instant(n) }
+
+func multisetDiff(want, got []string) string {
+	cnt := map[string]int{}
+	for _, w := range want {
+		cnt[w]++
+	}
+	for _, g := range got {
+		cnt[g]--
+	}
+	var missing, extra []string
+	for k, v := range cnt {
+		for ; v > 0; v-- {
+			missing = append(missing, clip(k))
+		}
+		for ; v < 0; v++ {
+			extra = append(extra, clip(k))
+		}
+	}
+	if len(missing)+len(extra) == 0 {
+		return ""
+	}
+	sort.Strings(missing)
+	sort.Strings(extra)
+	return fmt.Sprintf("predicted but not observed %v; observed but not predicted %v", missing, extra)
+}
+
+// ---------------------------------------------------------------------------------------------------------------
+// child: one World, cases one after the other
+
+type caseResult struct {
+	ID        string     `json:"id"`
+	Cfg       string     `json:"cfg"`
+	Proto     string     `json:"proto"`
+	Framing   string     `json:"framing"`
+	N         int        `json:"n"`
+	Flags     []string   `json:"flags"`
+	Status    int        `json:"status"`
+	Def       []mismatch `json:"def_mismatches"`
+	Mech      []string   `json:"mech_diffs"`
+	Infra     string     `json:"infra,omitempty"`
+	Crash     string     `json:"crash,omitempty"`
+	Detail    *detail    `json:"detail,omitempty"`
+	Traits    []string   `json:"traits"`
+	BodyBytes int        `json:"body_bytes"`
+}
+type detail struct {
+	Request  map[string]string `json:"request"`
+	Abstract json.RawMessage   `json:"abstract_case"`
+	Rows     []string          `json:"observed_tempo_traces"`
+	Tags     []string          `json:"observed_tempo_traces_attrs_gin"`
+	Read     map[string]string `json:"observed_read_back"`
+	Expected []string          `json:"expected_per_span"`
+}
+
+func traits(cs *Case) []string {
+	t := map[string]bool{}
+	b := cs.Body
+	t[b.Proto+":"+b.Framing] = true
+	if b.Proto == "zipkin" {
+		t["ts:"+b.TsKind] = true
+		for _, s := range b.Spans {
+			for _, id := range [][]string{s.Tid, s.Sid, s.Parent} {
+				switch {
+				case len(id) == 0:
+				case len(id) < 2:
+					t["id:short"] = true
+				case id[0] == "0" && id[1] == "0":
+					t["id:zero"] = true
+				case id[0] == "f" && id[1] == "f":
+					t["id:max"] = true
+				default:
+					t["id:full"] = true
+				}
+			}
+			has := map[string]int{}
+			for i, k := range s.Order {
+				has[k] = i + 1
+			}
+			if has["localEndpoint"] > 0 && has["remoteEndpoint"] > 0 {
+				if has["localEndpoint"] < has["remoteEndpoint"] {
+					t["endpoints:local-first"] = true
+				} else {
+					t["endpoints:remote-first"] = true
+				}
+			}
+			if has["traceId"] != 1 {
+				t["order:ids-last"] = true
+			}
+			if has["parentId"] == 0 {
+				t["parent:absent"] = true
+			}
+			if has["name"] == 0 {
+				t["name:absent"] = true
+			}
+			if has["tags"] == 0 {
+				t["tags:absent"] = true
+			}
+			if s.Big > 0 {
+				t["big:"+strconv.Itoa(s.Big)] = true
+			}
+		}
+		if len(b.Spans) > 1 {
+			t["spans:"+strconv.Itoa(len(b.Spans))] = true
+		}
+	} else {
+		var walk func(v AV, depth int)
+		walk = func(v AV, depth int) {
+			t["attr:"+v.T] = true
+			if depth > 0 && (v.T == "list" || v.T == "map") {
+				t["attr:nested"] = true
+			}
+			if v.T == "list" && len(v.E) == 0 {
+				t["attr:empty-list"] = true
+			}
+			for _, e := range v.E {
+				walk(e, depth+1)
+			}
+			for _, kv := range v.KV {
+				walk(kv.V, depth+1)
+			}
+		}
+		t["groups:"+strconv.Itoa(len(b.Groups))] = true
+		for _, g := range b.Groups {
+			t["scopes:"+strconv.Itoa(len(g.Scopes))] = true
+			if len(g.Rattrs) == 0 {
+				t["resource:no-attributes"] = true
+			}
+			for _, kv := range g.Rattrs {
+				if kv.K == "service.name" {
+					t["resource:service.name"] = true
+				}
+			}
+			for _, sc := range g.Scopes {
+				if len(sc) == 0 {
+					t["scope:empty"] = true
+				}
+				for _, s := range sc {
+					for _, kv := range s.Attrs {
+						walk(kv.V, 0)
+						if kv.K == "peer.service" {
+							t["attr:peer.service"] = true
+						}
+					}
+					if len(s.Parent) > 0 {
+						t["parent:present"] = true
+					}
+					if s.End == s.Start {
+						t["duration:zero"] = true
+					}
+					if s.Big > 0 {
+						t["big:"+strconv.Itoa(s.Big)] = true
+					}
+					if s.Tid[0] == "0" && s.Tid[1] == "0" {
+						t["id:zero"] = true
+					}
+					if s.Tid[0] == "f" && s.Tid[1] == "f" {
+						t["id:max"] = true
+					}
+				}
+			}
+		}
+		if cs.Mech.Responses > 1 {
+			t["flush:intermediate"] = true
+		}
+	}
+	if cs.Body.Proto == "zipkin" && cs.Mech.Responses > 1 {
+		t["flush:intermediate"] = true
+	}
+	var out []string
+	for k := range t {
+		out = append(out, k)
+	}
+	sort.Strings(out)
+	return out
+}
+
+func makeDetail(c *conc, cs *Case, raw []byte, rq request, o *observation) *detail {
+	d := &detail{Request: map[string]string{"method": "POST", "path": rq.Path, "content_type": rq.ContentType}, Abstract: json.RawMessage(raw), Read: map[string]string{}}
+	if cs.Body.Proto == "zipkin" {
+		d.Request["body"] = clipN(string(rq.Body), 6000)
+	} else {
+		d.Request["body_hex"] = clipN(hex.EncodeToString(rq.Body), 6000)
+		var td tracepb.TracesData
+		_ = proto.Unmarshal(rq.Body, &td)
+		d.Request["body_text"] = clipN(td.String(), 6000)
+	}
+	if o == nil {
+		return d
+	}
+	for _, r := range o.Rows {
+		pl := clip(r.Payload)
+		if cs.Body.Proto == "otlp" {
+			pl = "protobuf:" + clip(hex.EncodeToString([]byte(r.Payload)))
+		}
+		d.Rows = append(d.Rows, fmt.Sprintf("trace_id=%s span_id=%s parent_id=%s name=%q timestamp_ns=%d duration_ns=%d service_name=%q payload_type=%d payload=%q",
+			hx(r.Tid), hx(r.Sid), hx(r.Parent), clip(r.Name), r.Ts, r.Dur, clip(r.Svc), r.Ptype, pl))
+	}
+	for _, t := range o.Tags {
+		d.Tags = append(d.Tags, fmt.Sprintf("key=%q val=%q trace_id=%s span_id=%s timestamp_ns=%d duration=%d", t.Key, clip(t.Val), hx(t.Tid), hx(t.Sid), t.Ts, t.Dur))
+	}
+	for t, ss := range o.ReadPB {
+		var parts []string
+		for _, s := range ss {
+			var as []string
+			for k, v := range s.Attrs {
+				as = append(as, fmt.Sprintf("%q:%s", k, clip(v.String())))
+			}
+			sort.Strings(as)
+			parts = append(parts, fmt.Sprintf("{span_id=%s parent=%s name=%q start=%d end=%d attrs=%v}", hx(s.Sid), hx(s.Parent), clip(s.Name), s.Start, s.End, as))
+		}
+		d.Read[t] = fmt.Sprintf("%d spans: %s", len(ss), strings.Join(parts, " "))
+	}
+	for _, e := range o.ReadErr {
+		d.Read["error"] += e + "; "
+	}
+	for n, df := range cs.Def {
+		var tags []string
+		for _, q := range df.Required {
+			v, exact := c.tagValue(q.V)
+			if !exact {
+				v = "~" + fmt.Sprint(c.f64(q.V.A))
+			}
+			tags = append(tags, fmt.Sprintf("%q=%q", c.path(q.K), clip(v)))
+		}
+		svc := "(any)"
+		if df.SvcKnown {
+			svc = strconv.Quote(clip(c.str(df.Svc)))
+		}
+		d.Expected = append(d.Expected, fmt.Sprintf("span %d: trace_id=%s span_id=%s parent=%s name=%q start_ns=%d duration_ns=%d service=%s one tag row each: %v", n+1,
+			hx(string(c.bytesID(df.Tid, true))), hx(string(c.bytesID(df.Sid, false))), hx(string(c.bytesID(df.Parent, false))), clip(c.str(df.Name)), c.instant(df.Ts), c.duration(df.Dur), svc, tags))
+	}
+	return d
+}
+
+func clipN(s string, n int) string {
+	if len(s) <= n {
+		return s
+	}
+	cut := n
+	for cut > 0 && !utf8.RuneStart(s[cut]) {
+		cut--
+	}
+	return s[:cut] + fmt.Sprintf("...[%d bytes in all]", len(s))
+}
+
+func child(casesPath, outPath string, seed int64) error {
+	f, err := os.Open(casesPath)
+	if err != nil {
+		return err
+	}
+	defer f.Close()
+	out, err := os.OpenFile(outPath, os.O_CREATE|os.O_WRONLY|os.O_APPEND, 0o644)
+	if err != nil {
+		return err
+	}
+	defer out.Close()
+	w, err := e2e.New(e2e.Options{IntervalMs: 1})
+	if err != nil {
+		return err
+	}
+	defer w.Close()
+	sc := bufio.NewScanner(f)
+	sc.Buffer(make([]byte, 1<<20), 64<<20)
+	emit := func(v any) {
+		b, err := json.Marshal(v)
+		if err != nil {
+			panic(err)
+		}
+		out.Write(append(b, '\n'))
+	}
+	for sc.Scan() {
+		raw := append([]byte{}, sc.Bytes()...)
+		if len(bytes.TrimSpace(raw)) == 0 {
+			continue
+		}
+		var cs Case
+		if err := json.Unmarshal(raw, &cs); err != nil {
+			return fmt.Errorf("bad case: %v: %s", err, clip(string(raw)))
+		}
+		emit(map[string]string{"begin": cs.ID})
+		res := caseResult{ID: cs.ID, Cfg: cs.Cfg, Proto: cs.Body.Proto, Framing: cs.Body.Framing, N: cs.N, Flags: cs.Flags, Traits: traits(&cs)}
+		for _, t := range []string{"tempo_traces", "tempo_traces_attrs_gin", "tempo_traces_kv"} {
+			if err := w.Store.DB.Truncate(t); err != nil {
+				return fmt.Errorf("truncate %s: %v", t, err)
+			}
+		}
+		w.StoreErr = nil
+		c := newConc(seed, cs.ID)
+		rq := c.build(cs.Body)
+		res.BodyBytes = len(rq.Body)
+		tidSet := map[string]bool{}
+		var tids []string
+		for _, d := range cs.Def {
+			h := hx(string(c.bytesID(d.Tid, true)))
+			if !tidSet[h] {
+				tidSet[h] = true
+				tids = append(tids, h)
+			}
+		}
+		o, err := observe(w, rq, tids)
+		if err != nil {
+			res.Infra = err.Error()
+			emit(res)
+			continue
+		}
+		res.Status = o.Status
+		if len(o.StoreErr) > 0 {
+			res.Infra = "store: " + strings.Join(o.StoreErr, "; ")
+		}
+		if o.Status < 200 || o.Status > 299 {
+			// the property speaks about accepted spans only
+			res.Infra = fmt.Sprintf("well-formed body rejected: HTTP %d %s", o.Status, clip(o.Resp))
+			res.Detail = makeDetail(c, &cs, raw, rq, o)
+			emit(res)
+			continue
+		}
+		res.Def = c.compareDef(&cs, rq, o)
+		res.Mech = c.compareExact(&cs, rq, o)
+		if len(res.Def) > 0 || len(res.Mech) > 0 {
+			res.Detail = makeDetail(c, &cs, raw, rq, o)
+		}
+		emit(res)
+	}
+	return sc.Err()
+}
+
+// ---------------------------------------------------------------------------------------------------------------
+// parent
+
+func runParent(casesPath, outPath string, seed int64, workers int) error {
+	f, err := os.Open(casesPath)
+	if err != nil {
+		return err
+	}
+	var lines [][]byte
+	sc := bufio.NewScanner(f)
+	sc.Buffer(make([]byte, 1<<20), 64<<20)
+	for sc.Scan() {
+		if len(bytes.TrimSpace(sc.Bytes())) > 0 {
+			lines = append(lines, append([]byte{}, sc.Bytes()...))
+		}
+	}
+	f.Close()
+	if err := sc.Err(); err != nil {
+		return err
+	}
+	if workers < 1 {
+		workers = 1
+	}
+	dir, err := os.MkdirTemp("", "c06run")
+	if err != nil {
+		return err
+	}
+	defer os.RemoveAll(dir)
+	self, err := os.Executable()
+	if err != nil {
+		return err
+	}
+	type idOnly struct {
+		ID   string `json:"id"`
+		Cfg  string `json:"cfg"`
+		Body struct{ Proto, Framing string }
+		N    int
+		Flags []string
+	}
+	var mu sync.Mutex
+	var results []json.RawMessage
+	var infra []string
+	crashes := 0
+	var wg sync.WaitGroup
+	// round-robin so that heavy families spread over the children
+	chunks := make([][][]byte, workers)
+	for i, l := range lines {
+		chunks[i%workers] = append(chunks[i%workers], l)
+	}
+	for wi := 0; wi < workers; wi++ {
+		wg.Add(1)
+		go func(wi int, todo [][]byte) {
+			defer wg.Done()
+			for attempt := 0; len(todo) > 0; attempt++ {
+				in := fmt.Sprintf("%s/in_%d_%d.ndjson", dir, wi, attempt)
+				outp := fmt.Sprintf("%s/out_%d_%d.ndjson", dir, wi, attempt)
+				if err := os.WriteFile(in, append(bytes.Join(todo, []byte("\n")), '\n'), 0o644); err != nil {
+					mu.Lock()
+					infra = append(infra, err.Error())
+					mu.Unlock()
+					return
+				}
+				cmd := exec.Command(self, "child", "-cases", in, "-out", outp, "-seed", strconv.FormatInt(seed, 10))
+				var stderr bytes.Buffer
+				cmd.Stderr = &stderr
+				cmd.Stdout = nil
+				runErr := cmd.Run()
+				done := map[string]bool{}
+				begun := ""
+				if b, err := os.ReadFile(outp); err == nil {
+					for _, l := range bytes.Split(b, []byte("\n")) {
+						if len(l) == 0 {
+							continue
+						}
+						var m map[string]json.RawMessage
+						if json.Unmarshal(l, &m) != nil {
+							continue // a torn last line of a crashed child
+						}
+						if bg, ok := m["begin"]; ok {
+							json.Unmarshal(bg, &begun)
+							continue
+						}
+						var id string
+						json.Unmarshal(m["id"], &id)
+						done[id] = true
+						mu.Lock()
+						results = append(results, append(json.RawMessage{}, l...))
+						mu.Unlock()
+					}
+				}
+				var rest [][]byte
+				var crashed []byte
+				for _, l := range todo {
+					var io idOnly
+					json.Unmarshal(l, &io)
+					if done[io.ID] {
+						continue
+					}
+					if runErr != nil && io.ID == begun && crashed == nil {
+						crashed = l
+						continue
+					}
+					rest = append(rest, l)
+				}
+				if runErr == nil {
+					if len(rest) > 0 {
+						mu.Lock()
+						infra = append(infra, fmt.Sprintf("child %d finished without processing %d cases", wi, len(rest)))
+						mu.Unlock()
+					}
+					return
+				}
+				if crashed == nil {
+					mu.Lock()
+					infra = append(infra, fmt.Sprintf("child %d died outside a case: %v: %s", wi, runErr, tail(stderr.String(), 1500)))
+					mu.Unlock()
+					return
+				}
+				// the process died while handling this case: that is an observation
+				var cs Case
+				json.Unmarshal(crashed, &cs)
+				c := newConc(seed, cs.ID)
+				rq := c.build(cs.Body)
+				cr := caseResult{ID: cs.ID, Cfg: cs.Cfg, Proto: cs.Body.Proto, Framing: cs.Body.Framing, N: cs.N, Flags: cs.Flags, Traits: traits(&cs), BodyBytes: len(rq.Body),
+					Crash: fmt.Sprintf("%v: %s", runErr, crashLine(stderr.String())), Detail: makeDetail(c, &cs, crashed, rq, nil)}
+				b, _ := json.Marshal(cr)
+				mu.Lock()
+				results = append(results, b)
+				crashes++
+				tooMany := crashes > 40
+				mu.Unlock()
+				if tooMany {
+					mu.Lock()
+					infra = append(infra, "more than 40 crashes, giving up on the remaining cases")
+					mu.Unlock()
+					return
+				}
+				todo = rest
+			}
+		}(wi, chunks[wi])
+	}
+	wg.Wait()
+	o, err := os.Create(outPath)
+	if err != nil {
+		return err
+	}
+	defer o.Close()
+	bw := bufio.NewWriter(o)
+	defer bw.Flush()
+	hdr, _ := json.Marshal(map[string]any{"cases": len(lines), "results": len(results), "infra": infra, "crashes": crashes})
+	bw.Write(append(hdr, '\n'))
+	for _, r := range results {
+		bw.Write(append([]byte(r), '\n'))
+	}
+	return nil
+}
+
+func tail(s string, n int) string {
+	if len(s) > n {
+		return s[len(s)-n:]
+	}
+	return s
+}
+
+func crashLine(stderr string) string {
+	for _, l := range strings.Split(stderr, "\n") {
+		if strings.HasPrefix(l, "panic:") || strings.HasPrefix(l, "fatal error:") {
+			return l
+		}
+	}
+	return tail(stderr, 300)
+}
+
+func main() {
+	if len(os.Args) < 2 {
+		fmt.Fprintln(os.Stderr, "usage: c06 run|child ...")
+		os.Exit(2)
+	}
+	fs := flag.NewFlagSet(os.Args[1], flag.ExitOnError)
+	cases := fs.String("cases", "", "NDJSON file of cases")
+	out := fs.String("out", "", "result file")
+	seed := fs.Int64("seed", 1, "seed")
+	workers := fs.Int("workers", 6, "child processes")
+	fs.Parse(os.Args[2:])
+	var err error
+	t0 := time.Now()
+	switch os.Args[1] {
+	case "run":
+		err = runParent(*cases, *out, *seed, *workers)
+	case "child":
+		err = child(*cases, *out, *seed)
+	default:
+		err = fmt.Errorf("unknown mode %s", os.Args[1])
+	}
+	if err != nil {
+		fmt.Fprintln(os.Stderr, "c06:", err)
+		os.Exit(2)
+	}
+	_ = t0
 }
